@@ -5,6 +5,11 @@ import json, os
 D = os.path.dirname(os.path.abspath(__file__))
 
 CHECKS = {
+ 'C07': dict(
+   category='model_checking', design_ref='DESIGN.md 5 C07',
+   technique='bounded symbolic execution (CrossHair/z3): symbolic text -> real parser -> each real renderer -> read back by the reference reader and the real parser; tree-level variant with lexemes of symbolic kind/content; line wrapping with symbolic width and with a long concrete context',
+   text='Four renderers (compact file for the command, default, --pretty-print, --wrap-lines) x every text up to the length bound, plus every forest shape up to the bound whose leaves are lexemes of symbolic kind (simple token, string literal, quoted symbol, comment) with a symbolic character inside: the token sequence read back equals the input tokens and re-parsing gives the same tree. The line-breaking writer is additionally explored for every width 0..6 and, through the real --wrap-lines path, on lines that cross column 78.',
+   note='Trusted: CrossHair/z3 string model, refreader (shared with C08), in-memory file replacing open() for the compact writer, hash shim S, Node.__format__ shim. Outside: longer texts / larger forests; leaves with more than one symbolic character.'),
  'C08': dict(
    category='model_checking', design_ref='DESIGN.md 5 C08',
    technique='bounded symbolic execution (CrossHair/z3) of nodeio.parse_smtlib against a reference SMT-LIB reader on a fully symbolic text, path-exhaustive per partition; counterexamples replayed natively',
